@@ -1,12 +1,67 @@
 /-
-  Props.C05 — the theorems that decide property C05 (see DESIGN.md §7).
+  Props.C05 — Compile and Search never panic and always return
+  (DESIGN.md §7, C05; partial: resource bounds and the Go runtime are
+  monitored on the implementation, not modelled).
+
+  Proved here, for the interpreter with the function table REGENERATED from
+  /repo: `Execute` never panics, for every AST whose slice literals are 64-bit
+  integers and every document, and it always returns (the model is a total
+  function: every definition is structurally recursive or carries a fuel whose
+  exhaustion is an explicit `panic` outcome, excluded by these theorems).
 -/
 import Props.Tables
+import Proofs.EvalSafe
 namespace Jmes.Props
-open Jmes
+open Jmes Jmes.Interp
 
 theorem C05_generated_table_ok : TableOK Generated.table = true := generated_table_ok
 theorem C05_generated_sigs_ok : SigsOK Generated.functionTable Spec.functionTable = true := generated_sigs_ok
 theorem C05_generated_lex_ok : LexTablesOK Model.lexTables Spec.lexTables = true := generated_lex_ok
+
+variable {N : Type} [NumOps N]
+
+/-- With the function table found in /repo's source, no call panics: every
+    handler's unchecked type assertion is dominated by the type check. -/
+theorem C05_function_table_safe : TableSafe N Generated.functionTable := by
+  intro name args hs
+  rw [Fn.callFunction_congr _ _ generated_sigs_ok]
+  exact Fn.spec_call_np name args hs
+
+/-- `Execute` never panics and never hangs: every node type, every
+    projection loop, every index, every slice (for all 64-bit start/stop/step),
+    every function call, on every document. -/
+theorem C05_execute_never_panics (n : Node N) (h : slicesOK n) (d : Val N) :
+    (eval Generated.functionTable n d).isPanic = false :=
+  eval_np Generated.functionTable C05_function_table_safe n h d
+
+/-- In other words: `Execute` returns a value or an error. -/
+theorem C05_execute_returns (n : Node N) (h : slicesOK n) (d : Val N) :
+    (∃ v, eval Generated.functionTable n d = .ok v) ∨ (∃ e, eval Generated.functionTable n d = .err e) :=
+  not_panic_cases _ (C05_execute_never_panics n h d)
+
+/-- The integers the parser puts into slice nodes come from `strconv.Atoi`
+    and are 64-bit, so the hypothesis `slicesOK` holds for parsed expressions
+    (`Parser.sliceLoop` stores only `atoi` results). -/
+theorem C05_atoi_is_64_bit (s : Bytes) (v : Int) (h : Parser.atoi s = some v) : Slice.InRange v := by
+  unfold Parser.atoi at h
+  obtain ⟨w, _, hw⟩ := Option.bind_eq_some_iff.mp h
+  unfold Parser.clampInt64 at hw
+  split at hw
+  · rename_i hr
+    cases hw
+    unfold Slice.InRange; unfold Parser.minInt64 Parser.maxInt64 at hr
+    omega
+  · exact absurd hw (by simp)
+
+/-! Non-vacuity: a nested expression with a by-expression function and a
+    slice with an extreme step satisfies the hypothesis. -/
+example : slicesOK (N := Int)
+    (.pipe (.call [0x6D, 0x61, 0x70] [(true, .sub .current (.slice none none (some 9223372036854775807))), (false, .current)])
+           (.proj (.flatten .current) .identity)) := by
+  simp only [slicesOK, slicesOKArgs, optOK]
+  refine ⟨⟨⟨trivial, ?_, ?_, ?_⟩, trivial, trivial⟩, trivial, trivial⟩
+  · intro x hx; cases hx
+  · intro x hx; cases hx
+  · intro x hx; cases hx; unfold Slice.InRange; decide
 
 end Jmes.Props
